@@ -25,7 +25,7 @@ RULE = (
     "parent machine with one root-level event per actor operation: spawnChild with id / with id+systemId / anonymous (explicit ids in a prefix relation 'a' / 'ab', generated ids made of the names used for addressing), "
     "spawn_<service> action, sendTo by id / systemId / service key / unknown name, forwardTo, delayed sendTo with a "
     "send id, a second delayed send reusing the id, cancel(id), two id-less delayed sends of one event type to different addressees pending at once, stopChild by id / systemId, child spawning a grandchild that registers a systemId of its own, "
-    "escalate, a re-entering self-transition of the root state, TICK (virtual time passes), stop; BFS over operation sequences to the depth bound, deduplicated by "
+    "escalate, a re-entering self-transition of the root state, stopChild of a child that already FINISHED while it owns a registered grandchild and a pending delayed sendParent, TICK (virtual time passes), stop; BFS over operation sequences to the depth bound, deduplicated by "
     "(canonical implementation state, reference-model state); after EVERY step the implementation is compared with a "
     "dictionary reference model: children map, registry, per-actor received sequence numbers, parent's "
     "acknowledgements, warnings for unresolvable/ambiguous targets, liveness of stopped actors and their descendants. "
@@ -428,6 +428,82 @@ def _expand(engine, seqs, seen, depth, res):
 PRE_DEPTH = 2
 
 
+def run_done_then_stop(engine: str) -> Dict[str, Any]:
+    """A child that has FINISHED (top-level final state) is stopped with stopChild: it still owns a grandchild (registered
+    under a systemId) and a pending delayed sendParent.  Every order of {FINISH, WAIT 30 ms, STOPCHILD} prefixes that ends
+    with STOPCHILD, then 1 s of virtual time and a message to the grandchild's systemId: afterwards nobody of that subtree
+    is registered or running, the grandchild receives nothing and the root never hears LATE."""
+    import itertools as _it
+
+    res = dict(states=0, transitions=0, executions=0, distinct=[], violations=[], samples=[], caps=[])
+    for pre in ([], ["WAIT"], ["FINISH"], ["FINISH", "WAIT"], ["WAIT", "FINISH"], ["FINISH", "WAIT", "WAIT"]):
+        h = Harness({"id": "x", "states": {}}, with_plugin=True, threads=True, budget=3000)
+        rec = h.rec
+
+        def got(name):
+            def f(interp, ctx, ev, ad):
+                rec.log.append(("GOT", name, ev.type))
+            return f
+
+        gc = create_machine({"id": "gc", "initial": "x", "states": {"x": {"on": {"PING": {"actions": ["got"]}}}}},
+                            logic=MachineLogic(actions={"got": got("gc")}))
+        sup = create_machine(
+            {"id": "sup", "initial": "run",
+             "states": {"run": {"entry": [A.spawn_child("gc", actor_id="g", system_id="gc_sys")],
+                                "on": {"FINISH": {"target": "fin", "actions": [{"type": "xstate.sendParent", "params": {"event": "LATE", "delay": 150}}]}}},
+                        "fin": {"type": "final"}}},
+            logic=MachineLogic(services={"gc": gc}))
+        h.cfg = {"id": "m", "initial": "s", "states": {"s": {}},
+                 "on": {"SPAWN": {"actions": [A.spawn_child("sup", actor_id="sup", system_id="sup_sys")]},
+                        "FINISH": {"actions": [A.send_to("sup", "FINISH")]},
+                        "STOPCHILD": {"actions": [A.stop_child("sup")]},
+                        "PINGGC": {"actions": [A.send_to("gc_sys", "PING")]},
+                        "LATE": {"actions": ["late"]}}}
+        h._kw["services"] = {"sup": sup}
+        h._kw["extra_actions"] = {"late": got("root")}
+        d = h.driver(engine)
+        try:
+            d.start()
+            d.send("SPAWN")
+            d.settle()
+            for op in pre:
+                if op == "WAIT":
+                    d.advance(0.03)
+                else:
+                    d.send(op)
+                d.settle()
+            d.send("STOPCHILD")
+            d.settle()
+            mark = len(rec.log)
+            core.LOG.reset()
+            d.advance(1.0)
+            d.send("PINGGC")
+            d.settle()
+            d.advance(0.1)
+            after = [e for e in rec.log[mark:] if e[0] == "GOT"]
+            state = canon_interp(d.interp)
+            res["executions"] += 1
+            res["distinct"].append(hash((engine, tuple(pre))))
+            probs = []
+            if state[6]:
+                probs.append(("children-map", f"actors still listed after stopChild: {[a[0] for a in state[6]]}"))
+            if state[7]:
+                probs.append(("registry-not-cleaned", f"systemIds still registered after stopChild of their (grand)parent: {state[7]}"))
+            if any(e[1] == "gc" for e in after):
+                probs.append(("removed-actor-still-running", f"the grandchild of the stopped child still handled {[e[2] for e in after if e[1] == 'gc']}"))
+            if any(e[1] == "root" for e in after):
+                probs.append(("stopped-child-delivered-delayed-send", "the root received LATE from the child it had stopped"))
+            for clause, detail in probs:
+                res["violations"].append(dict(signature=f"C15|{clause}|{engine}|finished-child", clause=clause,
+                                              what=f"{engine}: {clause}: {detail}; SPAWN, {pre}, STOPCHILD, 1 s, PINGGC",
+                                              size=len(pre), replay=dict(engine="done-then-stop", which=engine)))
+        finally:
+            d.close()
+    res["states"] = res["executions"]
+    res["samples"].append(dict(kind="finished child stopped", engine=engine, cases=res["executions"]))
+    return res
+
+
 def units(tier: str) -> List[Any]:
     depth = 4 if tier == "quick" else 5
     core.install_logging()
@@ -440,6 +516,8 @@ def units(tier: str) -> List[Any]:
         b = bq if tier == "quick" else bt
         for root in split(PP, variant, b):
             us.append(("preempt", variant, (b, root)))
+    for engine in ENGINES:
+        us.append(("done-then-stop", engine))
     for engine in ENGINES:
         res = dict(states=0, transitions=0, executions=0, distinct=[], violations=[], samples=[], caps=[])
         seen: set = set()
@@ -460,6 +538,8 @@ PREEMPT = {"arm-cancel": (1, 2), "arm-rearm": (1, 2), "arm-rearm-cancel": (1, 1)
 def run_unit(unit):
     if unit[0] == "pre":
         return unit[2]
+    if unit[0] == "done-then-stop":
+        return run_done_then_stop(unit[1])
     if unit[0] == "preempt":
         from . import c15_preempt as P
         from ..preempt import unit_result
@@ -478,6 +558,11 @@ def run_unit(unit):
 
 
 def replay(payload):
+    if payload.get("engine") == "done-then-stop":
+        r = run_done_then_stop(payload["which"])
+        for v in r["violations"]:
+            print("  ", v["what"][:300])
+        return r["violations"]
     if payload.get("engine") == "preempt":
         from . import c15_preempt as P
         from ..preempt import replay_unit
